@@ -759,6 +759,68 @@ def f(t, n):
     return best, total
 ''')
 
+
+corpus('''
+def f(self, s, n):
+    k = n % 4 + 1
+    self.c = 0
+    out = []
+    for b in self.blocks(s, k):
+        out.append(bytes(x ^ 0x5c for x in b))
+    tail = self.last(s, k)
+    out.append(tail)
+    return b''.join(out), self.c, self.d
+''')
+corpus('''
+def f(self, s, n):
+    H = list(self.w) if self.w else [1, 2]
+    for c in s:
+        t = (H[0] + c) & 0xff
+        H[0] = H[-1]
+        H[-1] = t ^ n & 0xff
+        self.c += 1
+    self.w = H
+    return H[0] << 8 | H[-1]
+''')
+corpus('''
+def f(self, l, flag):
+    if flag:
+        self.w = []
+    buf = self.w
+    for x in l:
+        buf.append(x)
+        if len(buf) == 3:
+            self.c += sum(buf)
+            del buf[:]
+    return len(self.w), self.c
+''')
+corpus('''
+def f(self, s, n):
+    iv = bytes(self.w[:2]).ljust(2, b'\\x00')
+    out = []
+    for i in range(0, len(s), 2):
+        blk = s[i:i + 2].ljust(2, b'\\x00')
+        c = bytes(a ^ b for a, b in zip(blk, iv))
+        out.append(c)
+        iv = c
+    self.w = list(iv)
+    return b''.join(out)
+''')
+corpus('''
+def f(self, l, n):
+    state = self.w
+    i = self.c % 7
+    res = []
+    for x in l:
+        i = (i + 1) % 7
+        state_i = state[i % len(state)] if state else 0
+        res.append((x + state_i) & 0xff)
+        if state:
+            state[i % len(state)] = res[-1]
+    self.c = i
+    return res
+''')
+
 # ---- input generation by parameter name ----------------------------------------------------------------------------------------
 
 
@@ -769,7 +831,7 @@ def gen_arg(name, rng):
         return bytes(rng.randrange(256) for _ in range(rng.choice([0, 1, 3, 4, 5, 8, 12])))
     if name == 't':
         return [(rng.randrange(4), rng.randrange(10)) for _ in range(rng.randrange(6))]
-    if name == 'o':
+    if name in ('o', 'self'):
         return Obj(w=[rng.randrange(256) for _ in range(rng.choice([0, 1, 4]))], c=rng.randrange(400), d=0)
     if name == 'flag':
         return rng.random() < 0.5
@@ -787,6 +849,18 @@ class Obj(types.SimpleNamespace):
     def push(self, x):
         self.w.append(x)
         return self
+
+    def blocks(self, s, n):
+        i = 0
+        while i + n <= len(s):
+            self.c += 1
+            yield s[i:i + n]
+            i += n
+        self.d = len(s) - i
+
+    def last(self, s, n):
+        self.d = -1
+        return s[len(s) - len(s) % n:] + b'\x80'
 
 
 class _Timeout(Exception):
@@ -883,6 +957,13 @@ def struct_sites(fdef):
                         out.append(('absorb', (parent, fld, i)))       # next statement moves into the if body
                     if len(st.body) > 1:
                         out.append(('expel', (parent, fld, i)))        # last statement of the if body moves after the if
+                if isinstance(st, ast.If) and st.orelse:
+                    out.append(('ifswapbranches', (parent, fld, i)))
+                if isinstance(st, (ast.Assign, ast.AugAssign, ast.Expr)) and not isinstance(getattr(st, 'value', None), ast.Constant):
+                    out.append(('dupstmt', (parent, fld, i)))
+                if isinstance(st, ast.Assign) and len(st.targets) == 1 and isinstance(st.targets[0], ast.Tuple) \
+                        and isinstance(st.value, ast.Tuple) and len(st.targets[0].elts) == len(st.value.elts):
+                    out.append(('seqassign', (parent, fld, i)))
                 if isinstance(st, ast.AugAssign) and isinstance(st.target, ast.Name):
                     out.append(('aug2assign', (parent, fld, i)))
                 if isinstance(st, ast.Assign) and len(st.targets) == 1 and isinstance(st.targets[0], ast.Name) \
@@ -904,6 +985,10 @@ def struct_sites(fdef):
             out.append(('varrepl', n))
         if isinstance(n, ast.Compare) and len(n.ops) == 1:
             out.append(('cmpswap', n))
+        if isinstance(n, ast.Attribute):
+            out.append(('attrrepl', n))
+        if isinstance(n, ast.Return) and n.value is not None:
+            out.append(('retrepl', n))
         if isinstance(n, ast.IfExp):
             out.append(('ifexpswap', n))
         if isinstance(n, ast.Subscript) and not isinstance(n.slice, ast.Slice) and isinstance(n.ctx, ast.Load):
@@ -912,12 +997,18 @@ def struct_sites(fdef):
 
 
 def struct_apply(kind, node, rng, fdef):
-    if kind in ('swapstmt', 'brk2cont', 'cont2brk', 'deljump', 'dropelse', 'lastout', 'nextin', 'firstout', 'iftrue', 'iffalse',
+    if kind in ('ifswapbranches', 'dupstmt', 'seqassign', 'swapstmt', 'brk2cont', 'cont2brk', 'deljump', 'dropelse', 'lastout', 'nextin', 'firstout', 'iftrue', 'iffalse',
                 'absorb', 'expel', 'aug2assign', 'assign2aug'):
         parent, fld, i = node
         b = getattr(parent, fld)
         st = b[i]
-        if kind == 'swapstmt':
+        if kind == 'ifswapbranches':
+            st.body, st.orelse = st.orelse, st.body
+        elif kind == 'dupstmt':
+            b.insert(i, copy.deepcopy(st))
+        elif kind == 'seqassign':
+            b[i:i + 1] = [ast.Assign(targets=[t_], value=v_) for t_, v_ in zip(st.targets[0].elts, st.value.elts)]
+        elif kind == 'swapstmt':
             b[i], b[i + 1] = b[i + 1], b[i]
         elif kind == 'brk2cont':
             b[i] = ast.Continue()
@@ -968,6 +1059,16 @@ def struct_apply(kind, node, rng, fdef):
         cands = [x for x in names_loaded(fdef) if x != node.id]
         if cands:
             node.id = rng.choice(cands)
+    elif kind == 'attrrepl':
+        cands = sorted({x.attr for x in ast.walk(fdef) if isinstance(x, ast.Attribute) and isinstance(x.value, ast.Name)
+                        and isinstance(node.value, ast.Name) and x.value.id == node.value.id and x.attr != node.attr
+                        and x.attr in ('w', 'c', 'd')})
+        if cands and node.attr in ('w', 'c', 'd'):
+            node.attr = rng.choice(cands)
+    elif kind == 'retrepl':
+        cands = [x for x in names_loaded(fdef)]
+        if cands:
+            node.value = ast.Name(id=rng.choice(cands), ctx=ast.Load())
     elif kind == 'cmpswap':
         node.left, node.comparators[0] = node.comparators[0], node.left
     elif kind == 'ifexpswap':
